@@ -64,10 +64,12 @@ def euler_records(rnd, tier):
                 uu = (u * math.cos(ang), u * math.sin(ang)) if not exact else (u, 0.0)
                 prim = [np.full(n, rho), np.vstack([np.full(n, uu[0]), np.full(n, uu[1])]), np.full(n, p)]
             else:
-                sec = (lambda x: 2.0 + 0.0 * x)
+                sec = (lambda x: 1.0 + 0.5 * x)
                 model = fd.euler.euler1d(gamma=gam) if which == "euler1d" else fd.euler.nozzle(sec, gamma=gam)
+                noz_mesh = None
                 if which == "nozzle":
-                    model.initdisc(fd.uniform(n))
+                    noz_mesh = fd.mesh.refinedmesh(ncell=n, length=1.0, ratio=2.0) if n >= 2 else fd.uniform(n)
+                    model.initdisc(noz_mesh)
                 uu = u
                 prim = [np.full(n, rho), np.full(n, u), np.full(n, p)]
             q = model.prim2cons([np.array(x, dtype=float) for x in prim])
@@ -82,10 +84,17 @@ def euler_records(rnd, tier):
                 sc = float(np.max(np.abs(q[2]))) if a_ is not q2[0] else rho
                 rt = max(rt, int(np.max([core.ulps(float(x), float(y), max(sc, 1e-300)) for x, y in zip(np.ravel(a_), np.ravel(b_))])))
             recs.append(base(name="(roundtrip)", model=which, roundtrip=rt))
+            fld = None
+            if which == "nozzle":
+                # observed as the property says, through field.phydata, on a field that lives on ITS mesh, after the model was
+                # given to a sibling mesh (same cell count and length, other cell positions) as a second operator would do
+                fld = fd.field.fdata(model, noz_mesh, [np.array(x, dtype=float) for x in q])
+                model.initdisc(fd.uniform(n, length=1.0))
             for name in model.list_var():
                 with np.errstate(all="ignore"):
-                    val = np.asarray(model.nameddata(name, q), dtype=float)
-                want = definition(name, gam, rho, uu, p, section=2.0 if which == "nozzle" else 1.0, twod=(which == "euler2d"))
+                    val = np.asarray(fld.phydata(name) if fld is not None else model.nameddata(name, q), dtype=float)
+                want = definition(name, gam, rho, uu, p, section=float(sec(noz_mesh.centers()[0])) if which == "nozzle" else 1.0,
+                                  twod=(which == "euler2d"))
                 r = base(name=name, model=which)
                 if name == "velocity" and which == "euler2d":
                     r["shape"] = 1 if val.shape == (2, n) else 0
@@ -111,7 +120,7 @@ def euler_records(rnd, tier):
                     tname = {"asound": "asound2", "mach": "mach2"}.get(name, name)
                     vv = v0 * v0 if name in ("asound", "mach") else v0
                     if name == "massflow" and which == "nozzle":
-                        vv = vv / 2.0
+                        vv = float("nan")          # the section at the first cell centre is not a small rational: tokens only
                     if tname in ("density", "pressure", "velocity", "velocitymag", "massflow", "kinetic-energy", "kinetic_energy",
                                  "enthalpy", "htot", "rttot", "ptot", "asound2", "mach2") and math.isfinite(vv):
                         qv = F(vv).limit_denominator(4096)
